@@ -1,7 +1,8 @@
 #!/bin/bash
-# tools/sweep.sh [tier] [ids...] — run checks (4 at a time) and print one line per check
+# tools/sweep.sh [tier] [ids...] — run checks (VP_SWEEP_PAR at a time, default 4) and print one line per check
+V=$(cd "$(dirname "$0")/.." && pwd)
 tier=${1:-quick}; shift
-ids="$@"; [ -z "$ids" ] && ids=$(cd /verif && ./vcheck --list | awk '{print $1}')
-out=${VP_SWEEP_OUT:-/tmp/vpsweep}; mkdir -p $out
+ids="$@"; [ -z "$ids" ] && ids=$(cd $V && ./vcheck --list | awk '{print $1}')
+out=${VP_SWEEP_OUT:-/tmp/vpsweep}; mkdir -p $out; out=$(cd $out && pwd)
 par=${VP_SWEEP_PAR:-4}
-echo $ids | tr ' ' '\n' | xargs -P $par -I{} bash -c "cd /verif; s=\$(date +%s); ./vcheck {} $tier > $out/{}.log 2>&1; rc=\$?; echo {} rc=\$rc \$((\$(date +%s)-s))s \$(grep -c '^KNOWN-FINDING' $out/{}.log)known \$(grep -m1 -E '^(VIOLATION|INCONCLUSIVE)' $out/{}.log)"
+echo $ids | tr ' ' '\n' | xargs -P $par -I{} bash -c "cd $V; s=\$(date +%s); ./vcheck {} $tier > $out/{}.log 2>&1; rc=\$?; echo {} rc=\$rc \$((\$(date +%s)-s))s \$(grep -c '^KNOWN-FINDING' $out/{}.log)known \$(grep -m1 -E '^(VIOLATION|INCONCLUSIVE)' $out/{}.log)"
